@@ -126,17 +126,43 @@ func runB2(c *core.Ctx) {
 				work = work[:len(work)-1]
 				f := clone(in[b])
 				for _, nd := range b.Nodes {
-					// derefs in this node (evaluated with the facts before the node's own writes)
-					ast.Inspect(nd, func(m ast.Node) bool {
-						if e, ok := m.(ast.Expr); ok {
-							if o, sign := derefVar(p, e); o != nil && sign >= 0 {
-								if !f[o] {
+					// derefs in this node (evaluated with the facts before the node's own writes);
+					// inside a short-circuit condition the right operand sees the left operand's outcome
+					var checkIn func(m ast.Node, fx facts)
+					checkIn = func(m ast.Node, fx facts) {
+						if be, ok := m.(*ast.BinaryExpr); ok && (be.Op == token.LAND || be.Op == token.LOR) {
+							checkIn(be.X, fx)
+							fy := clone(fx)
+							if o, onTrue, onFalse := cmp(be.X); o != nil {
+								if (be.Op == token.LAND && onTrue) || (be.Op == token.LOR && onFalse) {
+									fy[o] = true
+								}
+							}
+							checkIn(be.Y, fy)
+							return
+						}
+						ast.Inspect(m, func(x ast.Node) bool {
+							if x == m {
+								return true
+							}
+							if be, ok := x.(*ast.BinaryExpr); ok && (be.Op == token.LAND || be.Op == token.LOR) {
+								checkIn(be, fx)
+								return false
+							}
+							if e, ok := x.(ast.Expr); ok {
+								if o, sign := derefVar(p, e); o != nil && sign >= 0 && !fx[o] {
 									bad[p.Pos(e.Pos())] = e.Pos()
 								}
 							}
+							return true
+						})
+						if e, ok := m.(ast.Expr); ok {
+							if o, sign := derefVar(p, e); o != nil && sign >= 0 && !fx[o] {
+								bad[p.Pos(e.Pos())] = e.Pos()
+							}
 						}
-						return true
-					})
+					}
+					checkIn(nd, f)
 					// writes
 					switch s := nd.(type) {
 					case *ast.AssignStmt:
@@ -176,16 +202,40 @@ func runB2(c *core.Ctx) {
 				var tf, ff facts = f, f
 				if len(b.Nodes) > 0 && len(b.Succs) == 2 {
 					if e, ok := b.Nodes[len(b.Nodes)-1].(ast.Expr); ok {
-						if o, onTrue, onFalse := cmp(e); o != nil {
-							if onTrue {
-								tf = clone(f)
-								tf[o] = true
+						tf, ff = clone(f), clone(f)
+						var apply func(e ast.Expr, outcome bool, dst facts)
+						apply = func(e ast.Expr, outcome bool, dst facts) {
+							e = ast.Unparen(e)
+							switch x := e.(type) {
+							case *ast.UnaryExpr:
+								if x.Op == token.NOT {
+									apply(x.X, !outcome, dst)
+								}
+								return
+							case *ast.BinaryExpr:
+								if x.Op == token.LOR {
+									if !outcome {
+										apply(x.X, false, dst)
+										apply(x.Y, false, dst)
+									}
+									return
+								}
+								if x.Op == token.LAND {
+									if outcome {
+										apply(x.X, true, dst)
+										apply(x.Y, true, dst)
+									}
+									return
+								}
 							}
-							if onFalse {
-								ff = clone(f)
-								ff[o] = true
+							if o, onTrue, onFalse := cmp(e); o != nil {
+								if (outcome && onTrue) || (!outcome && onFalse) {
+									dst[o] = true
+								}
 							}
 						}
+						apply(e, true, tf)
+						apply(e, false, ff)
 					}
 				}
 				for i, s := range b.Succs {
